@@ -551,11 +551,28 @@ func (g *Global) replay(r *Result, prop, dir string) replayOut {
 		rp.q("true")
 	}
 	// ask the winning solver for the values
-	script := vc.script(r.Ob, r.Case, "", rp.queries)
-	ctx, cancel := context.WithTimeout(context.Background(), 60*time.Second)
+	// prefer a small counterexample: first ask for a model in which every slice and string reachable
+	// from the parameters is short (replayable without huge allocations); fall back to any model
+	var small []string
+	for i, qt := range rp.queries {
+		if strings.HasPrefix(qt, "(s.len ") || strings.HasPrefix(qt, "(slen ") {
+			small = append(small, fmt.Sprintf("(assert (bvule %s %s))", rp.queries[i], bvI(2048, 64)))
+		}
+	}
+	ctx, cancel := context.WithTimeout(context.Background(), 90*time.Second)
 	defer cancel()
 	var ans solverAnswer
+	if len(small) > 0 {
+		ans = runSolver(ctx, solvers[0], vc.script(r.Ob, r.Case, strings.Join(small, "\n"), rp.queries), 20)
+		if ans.status != "sat" {
+			ans = runSolver(ctx, solvers[1], vc.script(r.Ob, r.Case, strings.Join(small, "\n"), rp.queries), 20)
+		}
+	}
+	script := vc.script(r.Ob, r.Case, "", rp.queries)
 	for _, sp := range solvers {
+		if ans.status == "sat" {
+			break
+		}
 		if sp.name == r.Solver || r.Solver == "" {
 			ans = runSolver(ctx, sp, script, 50)
 			break
@@ -643,7 +660,7 @@ func (g *Global) replay(r *Result, prop, dir string) replayOut {
 	_ = os.WriteFile(ovPath, ovData, 0o644)
 	cctx, ccancel := context.WithTimeout(context.Background(), 180*time.Second)
 	defer ccancel()
-	cmd := exec.CommandContext(cctx, "go", "test", "-overlay", ovPath, "-vet=off", "-tags", "verif", "-count=1", "-timeout", "60s", "-run", "^TestVerifReplay$", ".")
+	cmd := exec.CommandContext(cctx, "go", "test", "-overlay", ovPath, "-vet=off", "-tags", "verif", "-count=1", "-v", "-timeout", "60s", "-run", "^TestVerifReplay$", ".")
 	cmd.Dir = pkgDir
 	cmd.Env = append(os.Environ(), "GOFLAGS=-mod=mod", "GOPROXY=off", "GOSUMDB=off", "GOTOOLCHAIN=local")
 	res, _ := cmd.CombinedOutput()
